@@ -167,4 +167,144 @@ theorem vline_mlist_okW (kt a nl : Token) (key : Str) (vs : List PItem) (vt : To
   rw [parseValue_mlistToks h st nl k fuel hr' hf (by rw [htop.1]; omega) (by rw [htop.1]; simpa using htop.2)]
   rfl
 
+/-! ## the same with the warnings tracked exactly -/
+
+/-- like `VLine.OK`, but reading the value files exactly the warnings `vw` (emission order). -/
+structure _root_.Octave.ListDocParse.VLine.OKX (ln : VLine) (F : Nat) (vw : List Warning) : Prop where
+  kt : ln.kt.type = .identifier
+  kv : ln.kt.value = .str ln.key
+  a : ln.a.type = .assign
+  nl : ln.nl.type = .newline
+  reads : ∀ (st : PState) (k : List Token) (fuel : Nat), Top st → st.rest = ln.vt :: (ln.vr ++ ln.nl :: k) → F ≤ fuel →
+    parseValue fuel st = .ok (ln.v, { st with rest := ln.nl :: k, prev := (ln.vt :: ln.vr).getLast?, pos := st.pos + (ln.vr.length + 1), warnings := vw.reverse ++ st.warnings })
+
+theorem _root_.Octave.ListDocParse.VLine.OKX.mono {ln : VLine} {F F' : Nat} {vw : List Warning} (h : ln.OKX F vw) (hle : F ≤ F') :
+    ln.OKX F' vw :=
+  ⟨h.kt, h.kv, h.a, h.nl, fun st k fuel ht hr hf => h.reads st k fuel ht hr (Nat.le_trans hle hf)⟩
+
+theorem _root_.Octave.ListDocParse.VLine.OKX.toW {ln : VLine} {F : Nat} {vw : List Warning} (h : ln.OKX F vw) : ln.OKW F :=
+  ⟨h.kt, h.kv, h.a, h.nl, fun st k fuel ht hr hf => ⟨vw.reverse, h.reads st k fuel ht hr hf⟩⟩
+
+theorem _root_.Octave.ListDocParse.VLine.OK.toX {ln : VLine} {F : Nat} (h : ln.OK F) : ln.OKX F [] :=
+  ⟨h.kt, h.kv, h.a, h.nl, fun st k fuel ht hr hf => by rw [h.reads st k fuel ht hr hf]; rfl⟩
+
+/-- a line with the warnings its value draws. -/
+abbrev XLine := VLine × List Warning
+
+/-- all parser warnings of the body loop, in emission order: per line the value's own, `parse_section`'s, the duplicate-key one. -/
+def xdocWarns : KeyPos → List XLine → List Warning
+  | _, [] => []
+  | kp, x :: r => x.2 ++ x.1.warns ++ (trackPure kp x.1.key x.1.kt.line).2 ++ xdocWarns (trackPure kp x.1.key x.1.kt.line).1 r
+
+theorem docLoop_vlinesX (vf F : Nat) (hF : F + 1 ≤ vf) (lines : List XLine) (e : Token) (tail : List Token)
+    (he : e.type = .envelopeEnd ∨ e.type = .eof) :
+    ∀ (st : PState) (acc : List Node) (kp : KeyPos) (extra : Nat), (∀ x ∈ lines, x.1.OKX F x.2) → Top st →
+    st.rest = (lines.map Prod.fst).flatMap VLine.toks ++ e :: tail →
+    ∃ st', docLoop vf (2 * lines.length + 1 + extra) [] acc kp st = .ok ((acc ++ (lines.map Prod.fst).map VLine.node, []), st') ∧
+      st'.rest = e :: tail ∧ st'.warnings = (xdocWarns kp lines).reverse ++ st.warnings := by
+  induction lines with
+  | nil =>
+    intro st acc kp extra _ _ hr
+    have hr : st.rest = e :: tail := hr
+    have hst : st = { st with rest := e :: tail } := by rw [← hr]
+    refine ⟨st, ?_, hr, by simp [xdocWarns]⟩
+    have hf : 2 * ([] : List XLine).length + 1 + extra = extra + 1 := by simp only [List.length_nil]; omega
+    rw [hf, docLoop]
+    conv => lhs; rw [hst]
+    step_simp [he]
+    rw [← hst]
+    simp
+  | cons x r ih =>
+    intro st acc kp extra hok htop hr
+    obtain ⟨ln, vw⟩ := x
+    have h : ln.OKX F vw := hok (ln, vw) (by simp)
+    obtain ⟨f', rfl⟩ : ∃ f', vf = f' + 1 := ⟨vf - 1, by omega⟩
+    obtain ⟨u, K', hK⟩ : ∃ u K', (r.map Prod.fst).flatMap VLine.toks ++ e :: tail = u :: K' := by
+      cases hx : (r.map Prod.fst).flatMap VLine.toks ++ e :: tail with
+      | nil => simp at hx
+      | cons u K' => exact ⟨u, K', rfl⟩
+    have hr' : st.rest = ln.kt :: ln.a :: ln.vt :: (ln.vr ++ ln.nl :: u :: K') := by
+      rw [hr, List.map_cons, List.flatMap_cons, List.append_assoc, hK]; simp [VLine.toks]
+    have htop2 : Top ({ st with rest := ln.vt :: (ln.vr ++ ln.nl :: u :: K'), prev := some ln.a, pos := st.pos + 1 + 1 } : PState) := htop
+    have hv := h.reads _ (u :: K') f' htop2 rfl (by omega)
+    have hps := parseSection_value st _ ln.kt ln.a ln.vt (ln.vr ++ ln.nl :: u :: K') (u :: K') ln.key ln.v ln.nl f'
+      h.kt h.kv h.a hr' hv rfl h.nl
+    have hf : 2 * ((ln, vw) :: r).length + 1 + extra = (2 * r.length + 1 + extra) + 2 := by simp only [List.length_cons]; omega
+    let s4 : PState := { st with rest := u :: K', prev := some ln.nl, pos := st.pos + 1 + 1 + (ln.vr.length + 1) + 1,
+                                 warnings := (trackPure kp ln.key ln.kt.line).2 ++ (ln.warns ++ (vw.reverse ++ st.warnings)) }
+    have hiter : docLoop (f' + 1) ((2 * r.length + 1 + extra) + 2) [] acc kp st
+        = docLoop (f' + 1) (2 * r.length + 1 + extra) [] (acc ++ [ln.node]) (trackPure kp ln.key ln.kt.line).1 s4 :=
+      docLoop_iter (f' + 1) _ st _ ln.kt _ _ ln.key ln.kt.line acc kp ln.nl u K' hr' h.kt hps rfl rfl h.nl
+    obtain ⟨st', h1, h2, h3⟩ := ih s4 (acc ++ [VLine.node ln]) (trackPure kp ln.key ln.kt.line).1 extra
+      (fun y hy => hok y (by simp [hy])) htop hK.symm
+    refine ⟨st', ?_, h2, ?_⟩
+    · rw [hf, hiter, h1]; simp
+    · rw [h3]
+      simp only [s4, xdocWarns, List.reverse_append, trackPure_warns_reverse, VLine.warns, lineWarns_reverse, List.append_assoc]
+
+/-- **`parse_document` with the exact warnings**, for lines whose values draw warnings. -/
+theorem parseDocument_vlinesX (f : Frame) (name : Str) (lines : List XLine) (F : Nat) (st : PState)
+    (hok : ∀ x ∈ lines, x.1.OKX F x.2) (hF : F ≤ 2 * (vdocToks f name (lines.map Prod.fst)).length) (htop : Top st)
+    (hm : vmetaFirst (lines.map Prod.fst) = false) (hr : st.rest = vdocToks f name (lines.map Prod.fst)) :
+    ∃ st', parseDocument st = .ok (vdoc name (lines.map Prod.fst), st') ∧ st'.warnings = (xdocWarns [] lines).reverse ++ st.warnings := by
+  have hokW : ∀ ln ∈ lines.map Prod.fst, ln.OKW F := by
+    intro ln hln
+    obtain ⟨x, hx, rfl⟩ := List.mem_map.mp hln
+    exact (hok x hx).toW
+  obtain ⟨u, K, hK, h1, h2, h3, h4, h5, h6⟩ := vbody_headW f (lines.map Prod.fst) F hokW hm
+  have hlen : (vdocToks f name (lines.map Prod.fst)).length = K.length + 3 := by
+    have := congrArg List.length hK
+    simp only [vdocToks, List.length_cons, List.length_append, List.length_nil] at this ⊢
+    omega
+  have hlines : lines.length ≤ K.length + 1 := by
+    have := congrArg List.length hK
+    have h' := vlines_length_le (lines.map Prod.fst)
+    simp only [List.length_cons, List.length_append, List.length_nil, List.length_map] at this h'
+    omega
+  have hst : st = { st with rest := f.envTok name :: f.nl0Tok :: u :: K } := by rw [← hK, ← vdocToks, ← hr]
+  have t1 : (f.envTok name).type = .envelopeStart := rfl
+  have t2 : (f.nl0Tok).type = .newline := rfl
+  have t3 : (f.envTok name).value = .str name := rfl
+  have t4 : (f.endTok).type = .envelopeEnd := rfl
+  obtain ⟨extra, hextra⟩ : ∃ extra, 2 * (2 * ((f.envTok name :: f.nl0Tok :: u :: K).length + 2) + 10) = 2 * lines.length + 1 + extra :=
+    ⟨2 * (2 * ((f.envTok name :: f.nl0Tok :: u :: K).length + 2) + 10) - (2 * lines.length + 1), by simp only [List.length_cons]; omega⟩
+  obtain ⟨stD, hD1, hD2, hD3⟩ := docLoop_vlinesX (2 * ((f.envTok name :: f.nl0Tok :: u :: K).length + 2) + 10) F
+    (by simp only [List.length_cons]; omega) lines f.endTok [f.nl1Tok, f.eofTok] (Or.inl rfl)
+    { st with rest := u :: K, prev := some f.nl0Tok, pos := st.pos + 1 + 1 } [] [] extra hok htop hK.symm
+  rw [← hextra] at hD1
+  have hsD : stD = { stD with rest := [f.endTok, f.nl1Tok, f.eofTok] } := by rw [← hD2]
+  refine ⟨{ stD with rest := [f.nl1Tok, f.eofTok], prev := some f.endTok, pos := stD.pos + 1 }, ?_, by rw [hD3]⟩
+  rw [hst]
+  unfold parseDocument
+  simp (config := {zeta := false}) only [bind, StateT.bind, Except.bind, budget_mk]
+  extract_lets n doc0 jp5 jp4 jp3 jp2 jp1
+  step_simp [t1, t2, skipWhitespace_stop]
+  simp only [jp1]
+  step_simp [t1]
+  simp only [jp2]
+  step_simp [skipWhitespace_newline, pyStrVal_str, h1, h2, t1, t2, t3]
+  simp only [jp3]
+  step_simp [h6]
+  simp only [jp4]
+  step_simp [h3]
+  simp only [jp5]
+  step_simp []
+  simp only [n]
+  rw [hD1]
+  simp only []
+  rw [hsD]
+  step_simp [t4, List.nil_append]
+  rfl
+
+/-- `KEY :: [ … ] NEWLINE` for a list of scalars and inline-map items in any layout, with exactly the items' warnings. -/
+theorem vline_mlist_okX (kt a nl : Token) (key : Str) (vs : List PItem) (vt : Token) (vr : List Token)
+    (h : MListToks vs (vt :: vr))
+    (hkt : kt.type = .identifier) (hkv : kt.value = .str key) (ha : a.type = .assign) (hnl : nl.type = .newline) :
+    VLine.OKX ⟨kt, key, a, vt, vr, .list (vs.map PItem.val), nl⟩ (vs.length + 6) (itemsWarns vs) := by
+  refine ⟨hkt, hkv, ha, hnl, ?_⟩
+  intro st k fuel htop hr hf
+  have hr' : st.rest = (vt :: vr) ++ nl :: k := hr
+  rw [parseValue_mlistToks h st nl k fuel hr' hf (by rw [htop.1]; omega) (by rw [htop.1]; simpa using htop.2)]
+  rfl
+
 end Octave.Maps
